@@ -447,6 +447,11 @@ func (s *Set) Value(_ context.Context, t *dials.Type) (reflect.Value, error) {
 		case ffield.Type():
 			ffield.Set(fval)
 			return
+		case reflect.PtrTo(ffield.Type()):
+			// the flag holds a pointer to a type that is nil-able itself,
+			// so it wasn't pointerified (e.g. a net.IP TextUnmarshaler)
+			ffield.Set(fval.Elem())
+			return
 		}
 
 		if willOverflow(fval, ptrVal.Elem()) {
